@@ -21,8 +21,8 @@ def main():
     print(detail)
     if violated:
         print("REPRODUCED on plain quanto")
-        if key:
-            print("FINDING-KEY: " + key)
+        for k in ([key] if isinstance(key, str) else (key or [])):
+            print("FINDING-KEY: " + k)
         sys.exit(1)
     print("not reproduced")
     sys.exit(0)
